@@ -3,6 +3,7 @@
 #include "api_gen.hpp"
 #include <masa.h>
 #include <cstdio>
+#include <cfenv>
 #include <cstring>
 #include <fcntl.h>
 #include <iostream>
@@ -40,6 +41,13 @@ int main() {
           double a = 0, b = 0; std::string oa = capture([&] { a = c.call(A); }), ob = capture([&] { b = e->cd(A); }); n++;
           bool same = (a != a && b != b) || memcmp(&a, &b, sizeof a) == 0;
           if (!same || oa != ob) printf("BAD %s on %s (tuple %d): C returns %.17g, masa_eval_%s<double> returns %.17g%s\n", c.sym, sol.c_str(), t, a, c.fn, b, oa != ob ? " (stdout differs)" : "");
+        }
+        // the wrapper runs in the caller's floating-point environment, like the template: compared bit for bit in the three directed rounding modes
+        for (int mode : {FE_UPWARD, FE_DOWNWARD, FE_TOWARDZERO}) {
+          ApiArgs A; for (int k = 0; k < 4; k++) A.s[k] = T[0][k]; A.i = 1; A.fd = [](double x) { return 2.75 + 0.25 * x; }; A.fl = 0;
+          fesetround(mode); double a = c.call(A), b = e->cd(A); int after = fegetround(); fesetround(FE_TONEAREST); n++;
+          bool same = (a != a && b != b) || memcmp(&a, &b, sizeof a) == 0;
+          if (!same || after != mode) { printf("BAD %s on %s in rounding mode %d: C returns %.17g, masa_eval_%s<double> returns %.17g%s\n", c.sym, sol.c_str(), mode, a, c.fn, b, after != mode ? " (rounding mode changed by the call)" : ""); break; }
         }
         // evaluators that take a user function: eight distinct function pointers, three rounds, each call compared -- the wrapper must
         // forward the pointer it was given, whatever it was given before
